@@ -223,7 +223,8 @@ where
             return Ok(());
         }
         if let Some(head) = self.head {
-            if slice.len() > Label::MAX_LEN - (self.len() - head) {
+            // `self.len() - head` includes the length octet of the label.
+            if self.len() - head - 1 + slice.len() > Label::MAX_LEN {
                 return Err(PushError::LongLabel);
             }
             if self.len() + slice.len() > 254 {
